@@ -221,10 +221,11 @@ def linkAt (cfg : Cfg) (D : Path) (fin : Bool) (s1 : FS) (tg0 : List String) (e 
       if e.linkRaw = "" || cannotCreate then (if cfg.errReturn then .fatal s1 else .ok (s1, tg))
       else .ok (s1.put (pp ++ [name]) (.link (entryTarget e)), tg)
     else
-      -- os.ReadFile(targetPath): an absolute target is joined to dir, a RELATIVE one is read as it stands, from the working directory
+      -- os.ReadFile: an absolute target is joined to dir, a relative one to the directory of the link (filepath.Join: cleaned lexically)
       let content : Option Nat :=
         if e.linkRaw = "" then none else
-        match (if e.linkAbs then resolveA D s1 D (cleanComps true e.linkComps).2 else resolveA D s1 cfg.cwd e.linkComps) with
+        match (if e.linkAbs then resolveA D s1 D (cleanComps true e.linkComps).2
+               else resolveA D s1 [] (cleanComps true (D ++ rel.dropLast ++ e.linkComps)).2) with
         | .ok q => (match s1.get q with | some (.file c) => some c | _ => none)
         | .error _ => none
       match content with
